@@ -144,12 +144,17 @@ def check(pid, tier, seed):
         if need_release:
             impl_rel, ierr2 = L.run_impl(lines, "release")
             ierr += ierr2
-        model, merr = (L.run_model(lines, env_extra=P.get("model_env")) if drv_ok else ({}, ["driver unavailable: " + drv_log[-300:]]))
+        mlines = [l for l, c in zip(lines, cases) if not c[1].get("impl_only")]
+        model, merr = (L.run_model(mlines, env_extra=P.get("model_env")) if drv_ok else ({}, ["driver unavailable: " + drv_log[-300:]]))
         disagreements = []
         for i, c in enumerate(cases):
             k = str(i)
             a = impl.get(k)
             m = model.get(k)
+            if c[1].get("impl_only"):
+                if a is None:
+                    disagreements.append((i, a, m, "missing"))
+                continue
             if a is None or m is None:
                 disagreements.append((i, a, m, "missing"))
                 continue
@@ -177,6 +182,12 @@ def check(pid, tier, seed):
                     if why:
                         oracle_fail.append((i, prof, out, why))
                         break
+        if P.get("post"):
+            for (i, why) in P["post"](cases, impl, model):
+                oracle_fail.append((i, "debug", impl.get(str(i), ""), why))
+        special = {"failures": [], "coverage": {}}
+        if P.get("special"):
+            special = P["special"](tier, rng, hooks)
         # 7. verdict
         known_hits = []
         real_fail = []
@@ -190,8 +201,16 @@ def check(pid, tier, seed):
         kf_lines = props.replay_known(known_here, impl_runner=L.run_impl)
         for kfl in kf_lines:
             print(kfl)
+        real_fail.sort(key=lambda f: len(cases[f[0]][0]))  # report the shortest failing case
         rc = 0
-        if real_fail:
+        if special["failures"] and not real_fail:
+            sf = special["failures"][0]
+            payload = {"property": pid, "kind": sf.get("kind", "failing-input"), "why": sf["why"], "detail": sf.get("detail"),
+                       "case": sf.get("case"), "observed": sf.get("observed"), "more": len(special["failures"]) - 1}
+            path = write_replay(pid, payload)
+            print("VIOLATION property=%s replay=%s%s" % (pid, path, "" if sf.get("has_input", True) else " no-failing-input-found"))
+            rc = 1
+        elif real_fail:
             i, prof, out, why = real_fail[0]
             payload = {"property": pid, "kind": "failing-input", "case": cases[i][0], "meta": cases[i][1], "profile": prof,
                        "observed": out, "model": model.get(str(i)), "why": why, "more": len(real_fail) - 1,
@@ -253,8 +272,48 @@ def check(pid, tier, seed):
                "profiles": ["debug"] + (["release"] if need_release else []),
                "known_findings_replayed": len(kf_lines),
                "notes": report["notes"]}
+        cov.update(special["coverage"])
         L.write_evidence(pid, tier, seed, P.get("level", "proof"), cov, P.get("assumptions", []), time.time() - t0, 1 if rc else 0)
     return rc
+
+
+def corr(pid, tier, seed):
+    """development aid: cases + implementation + model + oracle, no Coq build"""
+    P = props.PROPS[pid]
+    rng = random.Random(seed * 1000003 + int(pid[1:]))
+    t0 = time.time()
+    ok, hooks, lg = L.ensure_harness("debug")
+    if not ok:
+        print(lg[-2000:])
+        return 2
+    cases = P["gen"](tier, rng)
+    lines = ["%d\t%s" % (i, c[0]) for i, c in enumerate(cases)]
+    impl, ierr = L.run_impl(lines, "debug")
+    model, merr = L.run_model([l for l, c in zip(lines, cases) if not c[1].get("impl_only")], env_extra=P.get("model_env"))
+    dis = [(i, impl.get(str(i)), model.get(str(i))) for i in range(len(cases)) if not cases[i][1].get("impl_only") and not L.same_outcome(impl.get(str(i), "?"), model.get(str(i), "??"))]
+    if P.get("special"):
+        sp = P["special"](tier, rng, hooks)
+        print("special:", sp["coverage"], [f["why"][:300] for f in sp["failures"][:3]])
+    fails = []
+    if P.get("oracle"):
+        for i, c in enumerate(cases):
+            why = P["oracle"](c, impl.get(str(i), ""), model.get(str(i)))
+            if why:
+                fails.append((i, why))
+    if P.get("post"):
+        fails += P["post"](cases, impl, model)
+    hist = {}
+    for i in range(len(cases)):
+        k = props.outcome_class(impl.get(str(i), ""))
+        hist[k] = hist.get(k, 0) + 1
+    print("cases", len(cases), "time %.1fs" % (time.time() - t0), "errors", ierr[:1], merr[:1])
+    print("disagreements", len(dis), "oracle failures", len(fails))
+    print("histogram", hist)
+    for i, a, m in dis[:5]:
+        print("DIS", cases[i][0][:300], "\n   impl ", (a or "")[:300], "\n   model", (m or "")[:300])
+    for i, why in fails[:5]:
+        print("FAIL", why[:600])
+    return 1 if dis or fails else 0
 
 
 def main():
@@ -273,6 +332,8 @@ def main():
         return check(pid, tier, seed)
     if cmd == "replay":
         return props.replay(sys.argv[2])
+    if cmd == "corr":
+        return corr(sys.argv[2], os.environ.get("VERIF_TIER", "quick"), int(os.environ.get("VERIF_SEED", "1")))
     print(__doc__)
     return 2
 
